@@ -92,17 +92,26 @@ def run(ctx):
                 pass
         # mass_nonlinear: inside and outside the tabulated range, z = 0 and z > 0
         nmnl = 0
-        for (lo, hi, z, dc) in [(10.0, 15.0, 0.0, 1.686), (13.5, 15.5, 0.0, 1.686), (13.5, 15.5, 1.0, 1.686), (6.0, 9.0, 0.0, 1.686), (10.0, 15.0, 1.0, 1.686), (14.0, 15.5, 2.0, 1.686),
-                                (13.5, 15.5, 0.0, 1.5), (6.0, 9.0, 0.0, 2.0), (14.0, 15.5, 1.0, 1.4), (10.0, 15.0, 0.0, 1.5)]:
-            mf = MassFunction(transfer_model="EH", Mmin=lo, Mmax=hi, dlog10m=0.05, z=z, delta_c=dc, lnk_min=-14.0, lnk_max=12.0, dlnk=0.05)
+        def radius_of(filt, prm, mass, rho):   # the documented mass assignment of each filter, written out independently
+            if filt == "Gaussian":
+                return (mass / rho) ** (1.0 / 3.0) / np.sqrt(2 * np.pi)
+            rt = (3.0 * mass / (4.0 * np.pi * rho)) ** (1.0 / 3.0)
+            return rt / prm.get("c", 2.0 if filt == "SharpKEllipsoid" else 2.5) if filt.startswith("SharpK") else rt   # documented defaults c = 2.5 / 2.0
+        mnl_cases = [(lo, hi, z, dc, "TopHat", {}) for (lo, hi, z, dc) in
+                     [(10.0, 15.0, 0.0, 1.686), (13.5, 15.5, 0.0, 1.686), (13.5, 15.5, 1.0, 1.686), (6.0, 9.0, 0.0, 1.686), (10.0, 15.0, 1.0, 1.686), (14.0, 15.5, 2.0, 1.686),
+                      (13.5, 15.5, 0.0, 1.5), (6.0, 9.0, 0.0, 2.0), (14.0, 15.5, 1.0, 1.4), (10.0, 15.0, 0.0, 1.5)]]
+        mnl_cases += [(13.5, 15.0, 0.0, 1.686, "SharpK", {}), (6.0, 8.0, 0.0, 1.686, "SharpK", {}), (13.5, 15.0, 0.5, 1.686, "SharpK", {"c": 2.0}), (10.0, 15.0, 0.0, 1.686, "SharpK", {}),
+                      (13.5, 15.0, 0.0, 1.686, "SharpKEllipsoid", {}), (13.5, 15.5, 0.0, 1.686, "Gaussian", {}), (6.0, 8.0, 0.0, 1.686, "Gaussian", {}), (10.0, 15.0, 1.0, 1.686, "Gaussian", {})]
+        for (lo, hi, z, dc, filt, fprm) in mnl_cases:
+            mf = MassFunction(transfer_model="EH", Mmin=lo, Mmax=hi, dlog10m=0.05, z=z, delta_c=dc, lnk_min=-14.0, lnk_max=12.0, dlnk=0.05, filter_model=filt, filter_params=dict(fprm))
             mnl = float(np.atleast_1d(mf.mass_nonlinear)[0])
             nmnl += 1
             if not (mnl > 0 and np.isfinite(mnl)):
-                viol("mass_nonlinear/invalid", f"mass_nonlinear={mnl} for grid [{lo},{hi}], z={z}"); continue
-            rr = mf.filter.mass_to_radius(np.array([mnl]), mf.mean_density0)
+                viol("mass_nonlinear/invalid", f"mass_nonlinear={mnl} for grid [{lo},{hi}], z={z}, {filt}"); continue
+            rr = np.array([radius_of(filt, fprm, mnl, mf.mean_density0)])
             s = float(mf.filter.sigma(rr)[0] * mf._normalisation * mf.growth_factor)
-            if abs(s / mf.delta_c - 1) > 5e-3:
-                viol("mass_nonlinear/sigma-ne-delta_c", f"sigma(mass_nonlinear)={s:.4f} != delta_c={mf.delta_c} for grid [{lo},{hi}], z={z} (mass_nonlinear={mnl:.4g})", {"Mmin": lo, "Mmax": hi, "z": z, "delta_c": dc})
+            if abs(s / mf.delta_c - 1) > (5e-3 if filt == "TopHat" else 2e-2):
+                viol("mass_nonlinear/sigma-ne-delta_c", f"sigma(mass_nonlinear)={s:.4f} != delta_c={mf.delta_c} for grid [{lo},{hi}], z={z}, filter {filt}{fprm or ''} (mass_nonlinear={mnl:.4g})", {"Mmin": lo, "Mmax": hi, "z": z, "delta_c": dc, "filter_model": filt, "filter_params": fprm})
         # Behroozi adds only its documented correction to the Tinker10 dn/dm
         for z in (0.0, 1.0, 3.0, 6.0):
             kw = dict(transfer_model="EH", Mmin=10.0, Mmax=15.0, dlog10m=0.25, z=z, lnk_min=-12.0, lnk_max=10.0, dlnk=0.2)
@@ -135,7 +144,7 @@ def run(ctx):
     out["coverage"] = {
         "evaluations": len(reqs) + ncase * 8 + nmnl, "programs": len(exp), "disagreements_checked": len(exp), "traces_validated_against_impl": len(exp),
         "distinct_nontrivial": ncase,
-        "rule": "random compatible combinations of transfer, filter, growth, fit (18 fits) and mass-definition models, cosmology overrides, z, sigma_8, n, delta_c, mass grids (integer and float arguments); each: 14 regenerated bodies at Float vs real, identity with independent rho0, fit vs stand-alone component on the framework's own inputs, sub-grid embedding; 6 mass_nonlinear cases (inside/outside, z>=0); Behroozi correction at 4 redshifts",
+        "rule": "random compatible combinations of transfer, filter, growth, fit (18 fits) and mass-definition models, cosmology overrides, z, sigma_8, n, delta_c, mass grids (integer and float arguments); each: 14 regenerated bodies at Float vs real, identity with independent rho0, fit vs stand-alone component on the framework's own inputs, sub-grid embedding; 18 mass_nonlinear cases (inside/outside the grid, z>=0, four filters; sigma at the independently written radius of the returned mass equals delta_c); Behroozi correction at 4 redshifts",
         "gen_disagreements": nbad, "configs": ncase, "samples": [{"body": e[0], "config": str(e[2])[:200], "impl": e[1][:2].tolist()} for e in exp[:2]],
         "search": "oracles on the real MassFunction",
     }
